@@ -494,3 +494,21 @@ def r10_12(ctx):
                           expected="value.shape != target.shape and (numel(target)*N == numel(value) or numel(target)*(N+1) == numel(value))", found=ast.unparse(t.test)[:120], fi=f, node=t)
     if n < 4:
         raise AnalysisError("R10.12: only %d per-interval-array tests found in the set_initial functions (expected 4)" % n)
+
+
+@rule("R10.13", min_instances=1, desc="a guess for a grid='bspline' variable reaches its coefficients under every method that accepts such variables: a set_initial override handles `var in self.signals` (or hands the signal to the base method) instead of letting the error of the generic path be swallowed")
+def r10_13(ctx):
+    """D94 (known): DirectCollocation.set_initial overrides the base method without its signals branch; the generic path fails with
+    'arbitrary expression' and that error is swallowed: set_initial(b, 3.0) on a variable(grid='bspline', order>=1) leaves b at 0."""
+    P = ctx.prog
+    base = P.own_method("SamplingMethod", "set_initial")
+    if "self.signals" not in ast.unparse(base.node):
+        raise AnalysisError("SamplingMethod.set_initial no longer has a branch for B-spline signals (anchor moved?)")
+    for cname in sorted(P.subclasses("SamplingMethod")):
+        if cname in ("SamplingMethod", "SplineMethod") or "set_initial" not in P.cls(cname).methods:
+            continue
+        f = P.cls(cname).methods["set_initial"]
+        txt = ast.unparse(f.node)
+        handles = "self.signals" in txt or "SamplingMethod.set_initial(" in txt or "super().set_initial(" in txt
+        ctx.check(handles, "%s.set_initial gives the guess of a B-spline variable to its coefficients" % cname, detail="the guess of a grid='bspline' variable is dropped without a message (the variable starts at 0)",
+                  expected="a branch for `var in self.signals` setting self.signals[var].coeff, or delegation to SamplingMethod.set_initial", found="no mention of self.signals in the override", fi=f)
